@@ -234,6 +234,40 @@ def sign_group_rule(ctx: Ctx, rid: str) -> None:
                         walk(a)
 
         walk(tree)
+        # tokeniter finds the sign of the matched tag by *position* (`groups[2::2]`): that is
+        # right only if the root pattern's groups are  text, (named tag, sign), (named tag, sign)…
+        # - a tag rule that brings a capturing group of its own shifts every later sign
+        order: list[tuple[int, str | None, bool]] = []  # (group number, name, is sign group)
+
+        def collect(items) -> None:  # type: ignore[no-untyped-def]
+            for op, av in items:
+                if op is sc.SUBPATTERN:
+                    if av[0] is not None:
+                        inner = list(av[3])
+                        is_sign = False
+                        if len(inner) == 1 and inner[0][0] is sc.BRANCH:
+                            lits = ["".join(chr(a) for o, a in alt) if all(o is sc.LITERAL for o, a in alt) else None for alt in (list(x) for x in inner[0][1][1])]
+                            is_sign = set(lits) == {"-", "+", ""}
+                        order.append((av[0], names.get(av[0]), is_sign))
+                    collect(list(av[3]))
+                elif op is sc.BRANCH:
+                    for a in av[1]:
+                        collect(list(a))
+                elif op in (sc.MAX_REPEAT, sc.MIN_REPEAT):
+                    collect(list(av[2]))
+                elif op in (sc.ASSERT, sc.ASSERT_NOT):
+                    collect(list(av[1]))
+
+        collect(list(tree))
+        order.sort()
+        ti = repo.func("lexer:Lexer.tokeniter")
+        positional = "groups[2::2]" in ast.unparse(ti.node)
+        if positional:
+            seq = order[1:]  # group 1 is the text in front of the tag
+            bad = [(num, nm) for i, (num, nm, sg) in enumerate(seq) if (i % 2 == 0 and nm is None) or (i % 2 == 1 and not sg)]
+            ctx.check(not bad and len(seq) % 2 == 0 and len(seq) >= 6, f"sign:positions:{len(cfg)}:{cfg.get('line_comment_prefix', 'set')}", "lexer:compile_rules", f"root pattern groups are not (tag, sign) pairs at {bad[:2]}",
+                      f"tokeniter reads the whitespace-control sign with groups[2::2], i.e. every second group after the text group; the root pattern's groups are {[(n_, 'sign' if s_ else nm_) for n_, nm_, s_ in order][:12]}: a tag rule with its own capturing group shifts the lookup, so '-' and '+' of the tags sorted after it are ignored", "src/jinja2/lexer.py",
+                      detail={"groups": [(n_, nm_, s_) for n_, nm_, s_ in order]})
 
 
 def lstrip_rules(ctx: Ctx, rid: str) -> None:
